@@ -305,20 +305,20 @@ pub fn property() -> Property {
     const REQ_INV_FP: &[(&str, u32)] = &[("dense-invertible", 100), ("singular-column-combination", 50), ("low-rank", 20)];
     macro_rules! dim {
         ($m:ident, $tag:expr) => {
-            s.push(sc!(concat!("determinant-", $tag, "-Q"), "Q", $m::determinant::<Q>, 3000, 200_000, 120, &[("dense-regular", 100), ("singular", 50)], RULE_D, false));
-            s.push(sc!(concat!("determinant-", $tag, "-Fp"), "Fp", $m::determinant::<Fp>, 3000, 200_000, 120, &[("dense-regular", 100), ("singular", 50)], RULE_D, false));
-            s.push(sc!(concat!("invert-", $tag, "-Q"), "Q", $m::invert::<Q>, 3000, 200_000, 100, REQ_INV, RULE_INV, false));
-            s.push(sc!(concat!("invert-", $tag, "-Fp"), "Fp", $m::invert::<Fp>, 3000, 200_000, 100, REQ_INV_FP, RULE_INV, false));
-            s.push(sc!(concat!("transpose-", $tag, "-Q"), "Q", $m::transpose::<Q>, 2000, 100_000, 100, &[("dense-asymmetric", 100)], RULE_T, false));
-            s.push(sc!(concat!("transpose-", $tag, "-Fp"), "Fp", $m::transpose::<Fp>, 2000, 100_000, 100, &[], RULE_T, false));
+            s.push(sc!(concat!("determinant-", $tag, "-Q"), "Q", $m::determinant::<Q>, 3000, 200_000, 176, &[("dense-regular", 100), ("singular", 50)], RULE_D, false));
+            s.push(sc!(concat!("determinant-", $tag, "-Fp"), "Fp", $m::determinant::<Fp>, 3000, 200_000, 176, &[("dense-regular", 100), ("singular", 50)], RULE_D, false));
+            s.push(sc!(concat!("invert-", $tag, "-Q"), "Q", $m::invert::<Q>, 3000, 200_000, 128, REQ_INV, RULE_INV, false));
+            s.push(sc!(concat!("invert-", $tag, "-Fp"), "Fp", $m::invert::<Fp>, 3000, 200_000, 128, REQ_INV_FP, RULE_INV, false));
+            s.push(sc!(concat!("transpose-", $tag, "-Q"), "Q", $m::transpose::<Q>, 2000, 100_000, 128, &[("dense-asymmetric", 100)], RULE_T, false));
+            s.push(sc!(concat!("transpose-", $tag, "-Fp"), "Fp", $m::transpose::<Fp>, 2000, 100_000, 128, &[], RULE_T, false));
             s.push(sc!(concat!("swaps-", $tag, "-Q"), "Q", $m::swaps::<Q>, 100, 5_000, 8, &[], "every (row,row), (column,column), (element,element) index pair incl. equal ones; entries pairwise distinct", true));
         };
     }
     dim!(d2, "2");
     dim!(d3, "3");
     dim!(d4, "4");
-    s.push(sc!("inverse_transform-Q", "Q", inverse_transform::<Q>, 3000, 200_000, 160, &[("both-invertible", 50), ("both-singular", 20), ("mixed", 50)], "all entries of both matrices non-zero", false));
-    s.push(sc!("inverse_transform-Fp", "Fp", inverse_transform::<Fp>, 3000, 200_000, 160, &[("both-invertible", 50)], "all entries of both matrices non-zero", false));
+    s.push(sc!("inverse_transform-Q", "Q", inverse_transform::<Q>, 3000, 200_000, 224, &[("both-invertible", 50), ("both-singular", 20), ("mixed", 50)], "all entries of both matrices non-zero", false));
+    s.push(sc!("inverse_transform-Fp", "Fp", inverse_transform::<Fp>, 3000, 200_000, 224, &[("both-invertible", 50)], "all entries of both matrices non-zero", false));
     Property {
         id: "C02",
         title: "Inverse, determinant and transpose obey the laws of linear algebra",
